@@ -411,6 +411,7 @@ def invoke(w, st, release, extra=()):
     w.saves = 0
     w.crashed = False
     w.by_vid = {}
+    w.paths = {}
     w.cooked = set()
     w.hostile = st.get('hostile', 0)
     w.opened = []
@@ -435,6 +436,7 @@ def invoke(w, st, release, extra=()):
             if s.isPackageStep():
                 outs[s.getPackage().getName()] = dir_content(s.getWorkspacePath())
                 w.by_vid[(s.getPackage().getName(), s.getVariantId().hex())] = outs[s.getPackage().getName()]
+                w.paths[(s.getPackage().getName(), s.getVariantId().hex())] = s.getWorkspacePath()
             visited.append((s.getPackage().getName() + '/' + s.getLabel(), s.getWorkspacePath()))
             try:
                 with open(os.path.join(s.getWorkspacePath(), 'residue.txt')) as f:
@@ -712,6 +714,15 @@ def archive_history(e1, fresh2, d2, u2, e2, d3, fault, d4):
                     if os.environ.get('W_DEBUG'):
                         print('DIFF', key, w.by_vid.get(key), ref[key], file=sys.__stderr__)
                     return 'result-differs-from-local-build' + what
+            # C14: built or downloaded, every package result handled by this invocation carries a truthful audit trail
+            os.chdir(w.root)
+            saved, w.visited = w.visited, [(k[0] + '/dist', w.paths[k]) for k in w.cooked if k in w.paths]
+            try:
+                v = audit_check(w)
+            finally:
+                w.visited = saved
+            if v:
+                return v + what
             return None
         o, outs, res = invoke(w, st, False, ['--download=' + DMODES[d2]] + (['--upload'] if u2 else []))
         ex2 = list(w.execs)
